@@ -320,15 +320,22 @@ def c13():
     u = U('mx.cpp', defines=['UNODB_DETAIL_VERIF_FIXED_ITER_STACK=6'], max_node_type=1,
           stubs=['tag_ptr', 'node_type', 'node_ptr', 'lib_abort', 'keybuf_noop'],
           noinline=['@_ZN5unodb6detail10key_buffer(4push|3pop)E',
-                    '@_ZNK?5unodb2dbImSt4spanIKSt4byteLm18446744073709551615EEE(12get_internal|15insert_internal|15remove_internal|5clearEv|5emptyEv|4scan)'],
-          entry_hooks=[(r'^unodb::db<.*>::(get_internal|insert_internal|remove_internal|clear|empty|scan)', MX_HOOK)])
+                    '@_ZNK?5unodb2dbImSt4spanIKSt4byteLm18446744073709551615EEE(12get_internal|15insert_internal|15remove_internal|5clearEv|5emptyEv|4scan|9scan_from|10scan_range|\\d+get_\\w+Ev)'],
+          entry_hooks=[(r'^unodb::db<.*>::(get_internal|insert_internal|remove_internal|clear|empty|scan|scan_from|scan_range|get_\w+)\b', MX_HOOK)])
     lb = [('::(get|insert|remove)_internal', 3), (r'iterator::(left_most|right_most)_traversal', 3), (r'iterator::(next|prior|seek)', 4)]
     qs = [Query('mx-' + h, u, 'mx_' + h, unwind=10, flags=['--slice-formula'], loop_bounds=lb,
                 about='mutex_db over a 3-entry tree: %s with a fully symbolic key; ghost mutex state checked at every inner-index entry and every return' % h,
-                bounds={'prelude': 'i4_3', 'symbolic_ops': 1, 'key_bits': 64}) for h in ('get', 'insert', 'remove', 'scan_clear')]
+                bounds={'prelude': 'i4_3', 'symbolic_ops': 1, 'key_bits': 64}) for h in ('get', 'insert', 'remove', 'scan_clear', 'stats')]
+    SF = ['zero', 'k0', 'k0p', 'k1', 'k2', 'k2p', 'max', 'other']
+    SR = ['k0_k2', 'k2_k0', 'all_up', 'all_down', 'equal', 'mid_up', 'mid_down', 'full_up', 'full_down']
+    for h in ['sf_%s_%s' % (n, d) for n in SF for d in 'fr'] + ['sr_' + n for n in SR]:
+        qs.append(Query('mx-' + h, u, 'mx_' + h, unwind=10, flags=['--slice-formula'], loop_bounds=lb,
+                        about='mutex_db over a 3-entry tree: scan_from / scan_range with a constant bound from the boundary catalogue and a symbolic halting position; '
+                              'visitor must run under the mutex, call must return with it released, visit sequence must be that of the map',
+                        bounds={'prelude': 'i4_3', 'bound': 'constant (catalogue of 8 scan_from bounds x 2 directions, 9 ranges)', 'halt': 'symbolic 1..4'}))
     return Check('C13', 'model_checking', qs,
                  assumptions=['pthread_mutex_lock/unlock are modelled by a ghost owner flag with assertions "not already held" / "held on unlock" (trusted mutex semantics)',
-                              'entry hooks (injected by the translator, by demangled name) assert the ghost flag at the start of db::get_internal/insert_internal/remove_internal/clear/empty/scan',
+                              'entry hooks (injected by the translator, by demangled name) assert the ghost flag at the start of db::get_internal/insert_internal/remove_internal/clear/empty/scan/scan_from/scan_range and the statistics getters',
                               'atomicity/linearizability under free-running threads is an argument from the lock discipline plus the trusted mutex, not a solver result; thread schedules are not explored'],
                  explanation='Lock discipline of every public mutex_db method for all keys: inner index only entered under the mutex, mutex released on return, '
                              'get() hands the lock to the caller exactly on a hit and the handle releases it on destruction.')
@@ -436,6 +443,17 @@ def c17():
         u = U('qptr.cpp', cfg, defines=['STEPS=1'], extra_glue=['qptr_glue.c'], extern_c=QPTR_EXT)
         qs.append(Query('qptr-span-' + cfg, u, 'h_qptr_span', unwind=14, replay='native' if cfg == 'base' else 'none',
                         about='qsbr_ptr_span over every sub-span of an 8-byte buffer: begin/end/size/iteration, copies/moves/assignment', bounds={'buffer_len': 8}))
+    # the same with wider element types: every result is in elements, never in bytes
+    for cfg, elem, en in (('base', 'std::uint32_t', 'u32'), ('debug', 'std::uint64_t', 'u64')):
+        u = U('qptr.cpp', cfg, defines=['STEPS=1', 'ELEM=' + elem], extra_glue=['qptr_glue.c'], extern_c=QPTR_EXT)
+        qs.append(Query('qptr-span-%s-%s' % (cfg, en), u, 'h_qptr_span', unwind=14, replay='native' if cfg == 'base' else 'none',
+                        about='qsbr_ptr_span<%s> over every sub-span of an 8-element buffer: begin/end/size/iteration, copies/moves/assignment' % elem, bounds={'buffer_len': 8, 'element': elem}))
+    u = U('qptr.cpp', 'base', defines=['STEPS=2', 'ELEM=std::uint32_t'], extra_glue=['qptr_glue.c'], extern_c=QPTR_EXT)
+    qs.append(Query('qptr-seq-base-2-u32', u, 'h_qptr_seq', unwind=14, replay='native', trace=True,
+                    about='every sequence of 2 operations over qsbr_ptr<std::uint32_t> (arithmetic and differences counted in elements)', bounds={'steps': 2, 'slots': 3, 'buffers': 2, 'buffer_len': 8, 'element': 'std::uint32_t'}))
+    u = U('qptr.cpp', 'debug', defines=['STEPS=1', 'ELEM=std::uint64_t'], extra_glue=['qptr_glue.c'], extern_c=QPTR_EXT)
+    qs.append(Query('qptr-seq-debug-1-u64', u, 'h_qptr_seq', unwind=14, replay='none', trace=False,
+                    about='assertion-enabled build, qsbr_ptr<std::uint64_t>: one symbolic operation; ghost registry == live non-null wrappers', bounds={'steps': 1, 'slots': 3, 'buffers': 2, 'buffer_len': 8, 'element': 'std::uint64_t'}))
     return Check('C17', 'model_checking', qs,
                  assumptions=['assertion-enabled build: the out-of-line qsbr_ptr_base::register_active_ptr/unregister_active_ptr (qsbr_ptr.cpp, which forwards to the per-thread std::unordered_multiset) are replaced by a ghost '
                               'multiset; that quiescent()/qsbr_pause()/qsbr_resume() assert exactly the emptiness of that registry is taken from reading qsbr.hpp:1392,1479,1493 and qsbr.cpp:134-148, not decided by the solver',
